@@ -394,6 +394,29 @@ IMPORT_BASES = [_imp(sp) for sp in IMPORT_SPECS] + [_imp(sp, semi=False) for sp 
                [_imp(IMPORT_SPECS[3], tail=""), _imp(IMPORT_SPECS[4], semi=False, tail="")]
 
 
+# Round 5 (coverage-guided): productions the earlier corpus never parsed — empty class / interface
+# bodies, `private interface`, `private val`, class with type parameters only, lambdas whose later
+# parameters are annotated, tuples whose identifier cover ends in a compound / literal element,
+# `(a + 1, b)`, empty statements, or-patterns, function types inside bounds and type arguments, the
+# `<`-after-member-name rule, match / if-else as operands, and a trailing comma in every comma
+# separated list (fields, parameters, arguments, tuples, type parameters / arguments, tuple and
+# object patterns, lambda parameters, variants and their data, function-type parameters, match arms)
+COVER_BASES = [
+    "class E1 {}\ninterface E2 {}\nprivate interface E3 { method m(): int }\nclass E4<T> { function f(): unit = {} }\nprivate class E5<T>(val a: T) {}\n",
+    "class F(private val a: int, val b: bool) { function f(): int = 1 }\n",
+    "class G {\n  function f(): unit = {\n    let p = (a, b: int) -> a;\n    let q = (a, b, c + 1);\n    let r = (a, b, 42);\n    let s = (a + 1, b);\n    let t = (a: int, b) -> b;\n    let u = (a, b, c) -> a;\n    let v = (a);\n    let w = (a, b);\n  }\n}\n",
+    "class H { function f(): int = { ; let a = 1; ; g(a); ; a } }\n",
+    "class I { function f(o: O): int = match o { A | B -> 1, C(x) | D(x) -> x, _ -> 0 } }\n",
+    "class J<T: Cmp<(int) -> int>, U: Box<List<(T) -> U>>> { function <V: F<(V, int) -> int>> g(): unit = {} }\n",
+    "class K { function f(a: A): bool = (a.b) < 3 && (a.c.d) < a.e || ((x) -> x.y) < 2 }\n",
+    "class L { function f(o: O): int = (match o { A -> 1, B -> 2 }) + (if o { 1 } else { 2 }) * 3 }\n",
+    "class M(val a: int, val b: int,) {\n  function f(a: int, b: int,): int = g(a, b,) + h((a, b,))\n  method <A, B,> m(x: Pair<A, B,>): unit = { let (c, d,) = x; let { e, f, } = x; let k = (p, q,) -> p; }\n}\n",
+    "class N(A(int, bool,), B,) { function f(n: N): int = match n { A(x, y,) -> 1, B -> 2, } }\n",
+    "class O { function f(): (int, bool,) -> int = (x: int, y: bool,) -> x }\n",
+    "class P {\n  function f(a: int, b: int, c: int): int = a + (b + c) + a * (b * c) - (a - (b - c))\n  function g(a: bool): bool = a && (a && a) || (a || a)\n  function h(a: int): int = { let x = (a + 1,); let y = (a,); x + y }\n}\n",
+]
+
+
 def tokcls(t):
     return t[5] if t[0] in ("kw", "op") else ("CMT" if t[0] in COMMENT_KINDS else t[0])
 
@@ -695,7 +718,7 @@ def module_phase(ctx):
     ctxs["dropped_set"] = set(ctxs.get("dropped", []))
     ctxs["nonidem_set"] = set(ctxs.get("nonidempotent", []))
     ctxs["reordered_set"] = set(ctxs.get("reordered", []))
-    bases = list(HAND_BASES) + IMPORT_BASES
+    bases = list(HAND_BASES) + IMPORT_BASES + COVER_BASES
     pieces = repo_pieces(140 if ctx.quick else 400)
     nhand = len(bases)
     bases += pieces
@@ -703,7 +726,16 @@ def module_phase(ctx):
     select = select_all(bases)
     multi = multi_comment_cases(rng, ctx.scale(40, 400))
     pairs = pair_cases(bases, basetoks, nhand)
-    cases = judge(make_cases(bases, basetoks, select) + multi + pairs)
+    # shared deterministic family of builder-C08 (vlib/listfamily.py): a comment in every gap of 18 kinds of
+    # bracketed comma separated lists; optional (another property's file: skipped if it cannot be imported)
+    shared = []
+    try:
+        from . import listfamily
+        shared = [{"base": -1, "gap": -1, "kind": "", "text": "listfamily", "width": 100, "key": None,
+                   "ctx4": "LISTFAMILY " + "/".join(map(str, k)), "ctx2": "LIST", "src": m} for k, m in listfamily.modules()]
+    except Exception as ex:      # pragma: no cover
+        shared_note = f"unavailable: {ex!r}"
+    cases = judge(make_cases(bases, basetoks, select) + multi + pairs + shared)
     stats = collections.Counter()
     known_hits = collections.Counter()
     reported = 0
@@ -768,7 +800,7 @@ def module_phase(ctx):
                            "broken": "hypothesis `Agree commentKey d` on the printer's documents"}, no_input=True)
             break
     return {"module_cases": len(cases), "module_verdicts": dict(stats), "known_finding_hits": dict(known_hits),
-            "import_sections_equal_to_model": n_imports, "multi_comment_import_cases": len(multi), "pair_cases": len(pairs),
+            "import_sections_equal_to_model": n_imports, "multi_comment_import_cases": len(multi), "pair_cases": len(pairs), "shared_listfamily_cases": len(shared),
             "bases_hand": nhand, "bases_repo_pieces": len(pieces), "real_documents_laid_out_by_model": len(docs),
             "agree_on_real_documents": dict(agree_stats)}, cases, samples
 
@@ -910,6 +942,50 @@ def fragment_phase(ctx, n):
         ctx.violation("model/implementation disagreement on protocol attach/paren (Model/Attach.lean vs parse_expression_with_additional_preceding_comments / keep_parenthesis_comments)",
                       {"protocol": "attach", "line": lines[i], "text": uh(lines[i].split(" ")[1]), "impl": impl[i], "model": model[i] if i < len(model) else None,
                        "broken": "correspondence `attach`/`paren`; attachLeft_stable / printCE_wrapLeft speak about the model only"}, no_input=True)
+    # (a2) comma separated list production on the queue (trailing comma, comments everywhere)
+    ltexts, lends, lwant = [], [], []
+    for _ in range(n // 2):
+        k = rng.range(1, 4)
+        parts, want = [], []
+        def cmt(name, num, den):
+            if rng.chance(num, den):
+                want.append(name)
+                return f"/* {name} */ "
+            return ""
+        for i in range(k):
+            parts.append(cmt("e%d" % i, 1, 3) + "ABCD"[i])
+            if i < k - 1 or rng.chance(1, 2):
+                parts.append(cmt("k%d" % i, 1, 2) + ",")
+        endp = rng.chance(1, 2)
+        parts.append(cmt("z", 1, 2) + (")" if endp else ">") + (" /* after */ x" if rng.chance(1, 3) else ""))
+        ltexts.append(" ".join(parts)); lends.append("p" if endp else "g"); lwant.append(want)
+    llines = []
+    for t, e in zip(ltexts, lends):
+        llines += ["tok " + hexs(t), f"list {hexs(t)} {e}"]
+    limpl = run_h(llines)
+    lm = []
+    for i, l in enumerate(llines):
+        if l.startswith("tok "):
+            lm.append("echo " + limpl[i])
+        else:
+            tl = parse_tok_answer(limpl[i - 1])
+            lm.append("listm " + hexs(")" if l.endswith(" p") else ">") + " " + stream_of(tl))
+    lmodel = run_d(lm)
+    i = common.first_diff(limpl, lmodel)
+    nlists = len(ltexts)
+    if i is not None:
+        ctx.violation("model/implementation disagreement on protocol list (Model/CommentQueue.lean parseList vs parse_comma_separated_list_with_end_token)",
+                      {"protocol": "list", "text": uh(llines[i].split(" ")[1]), "impl": limpl[i], "model": lmodel[i] if i < len(lmodel) else None,
+                       "broken": "correspondence `list`; list_production_conserves speaks about the model only"}, no_input=True)
+    for t, want, a in zip(ltexts, lwant, limpl[1::2]):
+        # independent oracle: every comment written before the closing token is handed to an element
+        # or to the closing token, exactly once, in order
+        handed = "|".join(a.split("|")[:2])
+        got = [x for part in handed.replace("|", ";").split(";") for x in (part.split("=")[-1]).split(",") if x not in ("-", "")]
+        if not a.startswith("panic") and got != want:
+            ctx.violation(f"comma separated list loses or reorders comments: handed out {got}, text has {want}",
+                          {"protocol": "list", "text": t, "impl": a})
+            break
     # (b) document of an expression: real create_doc vs Model/ExprDoc.lean, and its layout
     texts = [gen_expr_text(rng, rng.range(0, 4)) for _ in range(n)]
     widths = [rng.weighted([(100, 3), (rng.range(1, 30), 3), (rng.range(31, 80), 2)]) for _ in texts]
@@ -936,17 +1012,18 @@ def fragment_phase(ctx, n):
                        "impl_text": uh(a.split(" ")[1]) if a.startswith("ok ") else None,
                        "model_text": uh(b.split(" ")[1]) if b.startswith("ok ") else None,
                        "broken": "correspondence `exprdoc`; docOf_ok / expression_layout_text speak about the model only"}, no_input=True)
-    return {"attachment_skeletons_compared": nskel, "expression_documents_equal_to_model": ndocs}, 2 * n
+    return {"attachment_skeletons_compared": nskel, "list_productions_compared": nlists,
+            "expression_documents_equal_to_model": ndocs}, 2 * n + nlists
 
 
 def regen_contexts():
     """Maintenance (run on the unchanged tree only): enumerate every gap of every base and record the
     token contexts in which the unchanged code fails / passes.  `python3 -m vlib.c09 regen`"""
     common.build_harness(PROP)
-    bases = list(HAND_BASES) + IMPORT_BASES + repo_pieces(400)
+    bases = list(HAND_BASES) + IMPORT_BASES + COVER_BASES + repo_pieces(400)
     basetoks = tokens_of(bases)
     select = select_all(bases)
-    cases = judge(make_cases(bases, basetoks, select) + pair_cases(bases, basetoks, len(HAND_BASES) + len(IMPORT_BASES)))
+    cases = judge(make_cases(bases, basetoks, select) + pair_cases(bases, basetoks, len(HAND_BASES) + len(IMPORT_BASES) + len(COVER_BASES)))
     reordered = sorted({c["key"] for c in cases if c["fail"] == "reordered"})
     dropped = sorted({c["key"] for c in cases if c["fail"] == "dropped"})
     nonidem = sorted({c["key"] for c in cases if c["fail"] == "nonidempotent"
